@@ -26,7 +26,8 @@ LEVEL_TEXT = ("For every expression a shipped language passes to find_all / star
               "bound on live attempts and history length (reported as a cap).")
 LEVEL_NOTE = ("Assumes tokens differ only in (pygments kind, value) as far as predicates are concerned, which holds for every predicate "
               "class in codelimit/common/token_matching (checked by enumerating their attributes); nesting depths >= cap behave like the cap "
-              "(checked by comparing accept vectors for depths cap..cap+5).")
+              "(checked by comparing accept vectors for depths cap..cap+5)."
+              " Expressions are captured from a token probe AND by recording everything handed to the matcher while non-canonical snippets and corpus files are analysed; token kinds include one strict Pygments sub-type per base type.")
 
 DEPTH_CAP = 3
 # token kinds: the six base types the predicates test for and, for each of the four they distinguish, one STRICT sub-type as the lexers
